@@ -39,11 +39,11 @@ def parseAction (j : Json) : Except String Action := do
 
 def parseType (j : Json) : Except String (Option LType) := do
   if j.isNull then pure none else
-  match (← str j) with
-  | "c" => pure (some .c)
-  | "r" => pure (some .r)
-  | "m" => pure (some .m)
-  | t => throw s!"unknown label type {t}"
+  -- the literal as the caller wrote it (`"c"`, `"R"` …): the model's `parseLType` is `label_type.lower()`
+  let t ← str j
+  match parseLType t with
+  | some lt => pure (some lt)
+  | none => throw s!"unknown label type {t}"
 
 def resToJson : Except Err Rat → Json
   | .ok q => obj [("v", ratToJson q)]
@@ -54,6 +54,7 @@ def outToJson {χ : Type} (ctx : χ → Json) (probes : List Action) : Except Er
   | .ok ints => obj [("ints", ofList (fun (x : Interaction χ) =>
       obj [("context", ctx x.context),
            ("actions", ofList valToJson x.actions),
+           ("reward_class", Json.str x.reward.className),
            ("on_actions", ofList (fun a => resToJson (x.reward.eval (.one a))) x.actions),
            ("on_probes", ofList (fun a => resToJson (x.reward.eval a)) probes)]) ints)]
 
@@ -184,8 +185,20 @@ def handleText (op : String) (req : Json) (given : Option LType) (probes : List 
 /-- request: {"op":"pairs"|"dense"|"sparse", "given":…, "take":[positions]|null, "rows":…, "probes":[actions]};
 `"res":{"k":n,"steps":[[S,slot]…]}` instead of `take`: the model runs the C09 reservoir itself;
 {"op":"csv_text"|"svm_text"|"arff_text", …}: the model parses the text with the C12 reader model -/
+def tablesJson : Json :=
+  let s3 := fun (r : String × Nat × String) => Json.arr #[Json.str r.1, ofNat r.2.1, Json.str r.2.2]
+  obj [("dispatch", ofList (fun (r : String × Bool × String × String) =>
+          Json.arr #[Json.str r.1, Json.bool r.2.1, Json.str r.2.2.1, Json.str r.2.2.2]) dispatchTable),
+       ("numeric", ofList Json.str inferNumericTypes),
+       ("no_tipe", ofList Json.str (typeSources false)), ("with_tipe", ofList Json.str (typeSources true)),
+       ("source_args", ofList s3 ctorSourceArgs), ("xy_args", ofList s3 ctorXYArgs),
+       ("joins", ofList (fun (r : String × String × List String) =>
+          Json.arr #[Json.str r.1, Json.str r.2.1, ofList Json.str r.2.2]) pipelineJoins),
+       ("yields", ofList (fun (r : String × String) => Json.arr #[Json.str r.1, Json.str r.2]) yieldTable)]
+
 def handle (req : Json) : Except String Json := do
   let op ← str (← field req "op")
+  if op == "tables" then return obj [("tables", tablesJson)]
   let given0 ← parseType (fieldD req "given" Json.null)
   let tipe ← parseType (fieldD req "tipe" Json.null)
   let given := resolveGiven given0 tipe
